@@ -87,6 +87,15 @@ fn call(oracle: &str, v: &Value) -> Value {
             verdict(ok, match &got { Ok((st, en)) => json!({"start": [st.0, st.1], "end": [en.0, en.1]}), Err(m) => json!({"panicked": m}) },
                     json!({"start": [es.0, es.1], "end": "start <= end <= end of document", "doc_end": [doc_end.0, doc_end.1]}), v, "range lies inside the document with start <= end")
         }
+
+        #[cfg(feature = "lsp")]
+        "incan::exponent_kind" => c07::exponent_kind(v),
+        #[cfg(feature = "lsp")]
+        "incan::binop_plan" => c07::binop_plan(v),
+        #[cfg(feature = "lsp")]
+        "incan::static_type" => c07::static_type(v),
+        #[cfg(feature = "lsp")]
+        "incan::compound_assign" => c07::compound_assign(v),
         "syntax::get_line_info" => {
             use incan_syntax::diagnostics::{format_error, CompileError};
             use incan_syntax::ast::Span;
@@ -123,6 +132,188 @@ fn call(oracle: &str, v: &Value) -> Value {
     }
 }
 
+
+#[cfg(feature = "lsp")]
+mod c07 {
+    //! C07 oracles on the real `incan` crate: the three exponent classifiers and the emitter's plan, on
+    //! syntax-tree / IR values built from a small description.
+    use super::{guarded, verdict};
+    use incan::backend::ir::conversions::{determine_binop_plan, BinOpEmitKind, NumericConversion};
+    use incan::backend::ir::expr::{BinOp, IrExprKind, TypedExpr, UnaryOp as IrUnaryOp, VarAccess, VarRefKind};
+    use incan::backend::ir::types::IrType;
+    use incan::frontend::ast::{Expr, Literal, Span, Spanned, UnaryOp};
+    use incan::frontend::symbols::ResolvedType;
+    use incan::numeric_adapters::{pow_exponent_kind_from_ast, pow_exponent_kind_from_ir};
+    use serde_json::{json, Value};
+
+    /// shape: sequence of wrappers applied to a base; base = {"int": n} | {"var": "x"} ; wrappers "neg" | "paren"
+    fn build_ast(v: &Value) -> Spanned<Expr> {
+        let base = if let Some(n) = v["base"].get("int") { Expr::Literal(Literal::Int(n.as_i64().unwrap())) } else { Expr::Ident("x".to_string()) };
+        let mut e = Spanned::new(base, Span::default());
+        for w in v["wrap"].as_array().unwrap() {
+            e = match w.as_str().unwrap() {
+                "neg" => Spanned::new(Expr::Unary(UnaryOp::Neg, Box::new(e)), Span::default()),
+                _ => Spanned::new(Expr::Paren(Box::new(e)), Span::default()),
+            };
+        }
+        e
+    }
+    fn spec_ast_literal(v: &Value) -> Option<i64> {
+        // a literal, optionally negated once, optionally parenthesised (parentheses outside and inside the minus? only outside)
+        let wraps: Vec<&str> = v["wrap"].as_array().unwrap().iter().map(|w| w.as_str().unwrap()).collect();
+        let n = v["base"].get("int")?.as_i64()?;
+        // inner-to-outer: the minus (if any) must be applied directly to the literal; everything else must be parens
+        match wraps.iter().position(|w| *w == "neg") {
+            None => Some(n),
+            Some(0) if wraps[1..].iter().all(|w| *w == "paren") => Some(-n),
+            _ => None,
+        }
+    }
+    fn build_ir(v: &Value, ty: IrType) -> TypedExpr {
+        let base = if let Some(n) = v["base"].get("int") { IrExprKind::Int(n.as_i64().unwrap()) } else {
+            IrExprKind::Var { name: "x".to_string(), access: VarAccess::default(), ref_kind: VarRefKind::default() } };
+        let mut e = TypedExpr::new(base, ty.clone());
+        for w in v["wrap"].as_array().unwrap() {
+            if w.as_str().unwrap() == "neg" { e = TypedExpr::new(IrExprKind::UnaryOp { op: IrUnaryOp::Neg, operand: Box::new(e) }, ty.clone()); }
+            // parentheses do not exist in the IR
+        }
+        e
+    }
+    fn spec_ir_literal(v: &Value) -> Option<i64> {
+        let negs = v["wrap"].as_array().unwrap().iter().filter(|w| w.as_str().unwrap() == "neg").count();
+        let n = v["base"].get("int")?.as_i64()?;
+        match negs { 0 => Some(n), 1 => Some(-n), _ => None }
+    }
+    fn kind_name(is_float: bool, lit: Option<i64>) -> &'static str {
+        if is_float { "Float" } else { match lit { Some(x) if x >= 0 => "NonNegativeIntLiteral", Some(_) => "NegativeIntLiteral", None => "Variable" } }
+    }
+
+    pub fn exponent_kind(v: &Value) -> Value {
+        let is_float = v["float"].as_bool().unwrap_or(false);
+        let e = build_ast(v);
+        let rt = if is_float { ResolvedType::Float } else { ResolvedType::Int };
+        let it = if is_float { IrType::Float } else { IrType::Int };
+        let ir = build_ir(v, it);
+        let got = guarded(|| (format!("{:?}", pow_exponent_kind_from_ast(&e, &rt)), format!("{:?}", pow_exponent_kind_from_ir(&ir))));
+        let exp = (kind_name(is_float, spec_ast_literal(v)), kind_name(is_float, spec_ir_literal(v)));
+        let ok = matches!(&got, Ok((a, b)) if a == exp.0 && b == exp.1);
+        verdict(ok, match &got { Ok((a, b)) => json!({"from_ast": a, "from_ir": b}), Err(m) => json!({"panicked": m}) },
+                json!({"from_ast": exp.0, "from_ir": exp.1}), v, "exponent classification (checker side on the syntax tree, emitter side on the IR)")
+    }
+
+    /// The real front end (lex + parse + check) on a generated program: an annotated binding
+    /// `y: T = a <op> <rhs>` must be accepted iff T is the table's type (and `x: int = a / b` always rejected).
+    pub fn static_type(v: &Value) -> Value {
+        let ops = ["+", "-", "*", "/", "//", "%", "**"];
+        let op = ops[v["op"].as_u64().unwrap() as usize % ops.len()];
+        let lf = v["lfloat"].as_bool().unwrap();
+        let rf = v["rfloat"].as_bool().unwrap();
+        let ann_float = v["ann_float"].as_bool().unwrap();
+        // exponent / right operand form
+        let form = v["form"].as_str().unwrap();
+        let (rhs, lit): (String, Option<i64>) = match form {
+            "var" => ("b".to_string(), None),
+            "const" => ("N".to_string(), None),           // a module-level const is NOT a literal
+            "lit" => ("2".to_string(), Some(2)),
+            "zero" => ("0".to_string(), Some(0)),
+            "neg" => ("-2".to_string(), Some(-2)),
+            "paren" => ("(3)".to_string(), Some(3)),
+            "negneg" => ("-(-2)".to_string(), None),
+            _ => ("b".to_string(), None),
+        };
+        // only the form "var" uses the parameter b (whose kind is rfloat); every other right operand is an int
+        let rf = rf && form == "var";
+        if (op == "/" || op == "//" || op == "%") && matches!(form, "zero") { return super::verdict(true, json!(null), json!(null), v, "literal zero divisor: skipped"); }
+        let float = match op { "/" => true, "**" => !(!lf && !rf && matches!(lit, Some(n) if n >= 0)), _ => lf || rf };
+        let (lk, rk, ak) = (if lf { "float" } else { "int" }, if rf { "float" } else { "int" }, if ann_float { "float" } else { "int" });
+        let src = match v["position"].as_str().unwrap_or("let") {
+            "return" => format!("const N: int = 2\n\ndef f(a: {}, b: {}) -> {}:\n    return a {} {}\n\ndef main() -> None:\n    pass\n", lk, rk, ak, op, rhs),
+            "arg" => format!("const N: int = 2\n\ndef g(v: {}) -> None:\n    pass\n\ndef f(a: {}, b: {}) -> None:\n    g(a {} {})\n\ndef main() -> None:\n    pass\n", ak, lk, rk, op, rhs),
+            _ => format!("const N: int = 2\n\ndef f(a: {}, b: {}) -> None:\n    y: {} = a {} {}\n\ndef main() -> None:\n    pass\n", lk, rk, ak, op, rhs),
+        };
+        let got = guarded(|| {
+            let tokens = incan::frontend::lexer::lex(&src).map_err(|e| format!("lex: {:?}", e.first().map(|x| x.message.clone())))?;
+            let prog = incan::frontend::parser::parse(&tokens).map_err(|e| format!("parse: {:?}", e.first().map(|x| x.message.clone())))?;
+            Ok::<bool, String>(incan::frontend::typechecker::check(&prog).is_ok())
+        });
+        // accepted iff the annotation is the table's kind; int -> float widening of an int result is the only tolerated extra
+        let must_accept = ann_float == float;
+        let must_reject = !ann_float && float;
+        let ok = match &got { Ok(Ok(acc)) => (!must_accept || *acc) && (!must_reject || !*acc), _ => false };
+        let mut r = super::verdict(ok, match &got { Ok(Ok(a)) => json!({"accepted": a}), Ok(Err(m)) => json!({"front_end_error": m}), Err(m) => json!({"panicked": m}) },
+                json!({"table_type": if float { "float" } else { "int" }, "must_accept": must_accept, "must_reject": must_reject}),
+                &{ let mut a = v.clone(); a["source"] = json!(src); a }, "static type of an annotated binding follows the table");
+        // known finding: call arguments are not checked against parameter types at all
+        if !ok && v["position"].as_str() == Some("arg") && must_reject && matches!(&got, Ok(Ok(true))) { r["class"] = json!("C07-call-arguments-unchecked"); }
+        r
+    }
+
+    /// `x <op>= v` is checked as `x = x <op> v`: accepted iff the table's kind for (target, value) is the target's kind
+    pub fn compound_assign(v: &Value) -> Value {
+        let ops = ["+=", "-=", "*=", "/=", "//=", "%="];
+        let op = ops[v["op"].as_u64().unwrap() as usize % ops.len()];
+        let tf = v["target_float"].as_bool().unwrap();
+        let vf = v["value_float"].as_bool().unwrap();
+        let float = if op == "/=" { true } else { tf || vf };
+        let src = format!("def f(v: {}) -> None:\n    mut x: {} = {}\n    x {} v\n\ndef main() -> None:\n    pass\n",
+            if vf { "float" } else { "int" }, if tf { "float" } else { "int" }, if tf { "1.5" } else { "10" }, op);
+        let got = guarded(|| {
+            let tokens = incan::frontend::lexer::lex(&src).map_err(|e| format!("lex: {:?}", e.first().map(|x| x.message.clone())))?;
+            let prog = incan::frontend::parser::parse(&tokens).map_err(|e| format!("parse: {:?}", e.first().map(|x| x.message.clone())))?;
+            Ok::<bool, String>(incan::frontend::typechecker::check(&prog).is_ok())
+        });
+        let must_accept = tf == float;
+        let must_reject = !tf && float;           // an int variable would change numeric kind at run time
+        let ok = match &got { Ok(Ok(acc)) => (!must_accept || *acc) && (!must_reject || !*acc), _ => false };
+        super::verdict(ok, match &got { Ok(Ok(a)) => json!({"accepted": a}), Ok(Err(m)) => json!({"front_end_error": m}), Err(m) => json!({"panicked": m}) },
+                json!({"table_type": if float { "float" } else { "int" }, "must_accept": must_accept, "must_reject": must_reject}),
+                &{ let mut a = v.clone(); a["source"] = json!(src); a }, "compound assignment never changes the numeric kind of its target")
+    }
+
+    const OPS: &[(&str, BinOp)] = &[("Add", BinOp::Add), ("Sub", BinOp::Sub), ("Mul", BinOp::Mul), ("Div", BinOp::Div), ("FloorDiv", BinOp::FloorDiv),
+        ("Mod", BinOp::Mod), ("Pow", BinOp::Pow), ("Eq", BinOp::Eq), ("Ne", BinOp::Ne), ("Lt", BinOp::Lt), ("Le", BinOp::Le), ("Gt", BinOp::Gt), ("Ge", BinOp::Ge)];
+
+    pub fn binop_plan(v: &Value) -> Value {
+        let opi = v["op"].as_u64().unwrap() as usize % OPS.len();
+        let (opn, op) = (OPS[opi].0, OPS[opi].1);
+        let lf = v["lfloat"].as_bool().unwrap();
+        let rf = v["rfloat"].as_bool().unwrap();
+        if v["untyped"].as_bool().unwrap_or(false) {
+            // operands whose static type is not int/float (e.g. untyped closure parameters): `/ // %` must still
+            // go through the generic runtime helper of the SAME operator
+            let l = TypedExpr::new(IrExprKind::Var { name: "a".to_string(), access: VarAccess::default(), ref_kind: VarRefKind::default() }, IrType::Unknown);
+            let r = build_ir(&v["right"], if rf { IrType::Unknown } else { IrType::Int });
+            let want = match opn { "Mod" => "call incan_stdlib :: num :: py_mod", "FloorDiv" => "call incan_stdlib :: num :: py_floor_div", "Div" => "call incan_stdlib :: num :: py_div", _ => "" };
+            if want.is_empty() { return verdict(true, json!(null), json!(null), v, "not a division operator"); }
+            let got = guarded(|| { let p = determine_binop_plan(&op, &l, &r); match &p.emit { BinOpEmitKind::StdlibCall { path } => format!("call {}", path), BinOpEmitKind::Infix { token } => format!("infix {}", token), BinOpEmitKind::Pow { .. } => "pow".to_string() } });
+            return verdict(matches!(&got, Ok(e) if e == want), match &got { Ok(e) => json!({"emit": e}), Err(m) => json!({"panicked": m}) }, json!({"emit": want}),
+                           &{ let mut a = v.clone(); a["op_name"] = json!(opn); a }, "untyped operands: the generic runtime helper of the same operator");
+        }
+        let left = TypedExpr::new(IrExprKind::Var { name: "a".to_string(), access: VarAccess::default(), ref_kind: VarRefKind::default() }, if lf { IrType::Float } else { IrType::Int });
+        let right = build_ir(&v["right"], if rf { IrType::Float } else { IrType::Int });
+        let lit = spec_ir_literal(&v["right"]);
+        let k = if opn == "Pow" { Some(kind_name(rf, lit)) } else { None };
+        // the documented table
+        let float = match opn { "Div" => true, "Pow" => !(!lf && !rf && k == Some("NonNegativeIntLiteral")), _ => lf || rf };
+        let helper = match opn {
+            "Mod" => Some(if float { "incan_stdlib :: num :: py_mod_f64" } else { "incan_stdlib :: num :: py_mod_i64" }),
+            "FloorDiv" => Some(if float { "incan_stdlib :: num :: py_floor_div_f64" } else { "incan_stdlib :: num :: py_floor_div_i64" }),
+            "Div" => Some("incan_stdlib :: num :: py_div"), _ => None };
+        let got = guarded(|| {
+            let p = determine_binop_plan(&op, &left, &right);
+            let emit = match &p.emit { BinOpEmitKind::StdlibCall { path } => format!("call {}", path), BinOpEmitKind::Infix { token } => format!("infix {}", token),
+                                        BinOpEmitKind::Pow { result_is_int } => format!("pow int={}", result_is_int) };
+            (matches!(p.lhs_conv, NumericConversion::ToFloat), matches!(p.rhs_conv, NumericConversion::ToFloat), format!("{:?}", p.result_ty), emit)
+        });
+        let exp_emit = match (opn, helper) { (_, Some(h)) => format!("call {}", h), ("Pow", _) => format!("pow int={}", !float), _ => String::new() };
+        let exp = (float && !lf, float && !rf, if float { "Float" } else { "Int" });
+        let ok = matches!(&got, Ok((a, b, t, e)) if *a == exp.0 && *b == exp.1 && t == exp.2 && (exp_emit.is_empty() && e.starts_with("infix") || *e == exp_emit));
+        verdict(ok, match &got { Ok((a, b, t, e)) => json!({"promote": [a, b], "result": t, "emit": e}), Err(m) => json!({"panicked": m}) },
+                json!({"promote": [exp.0, exp.1], "result": exp.2, "emit": if exp_emit.is_empty() { "infix <operator>".to_string() } else { exp_emit }}),
+                &{ let mut a = v.clone(); a["op_name"] = json!(opn); a }, "emitter's plan: promotions, result kind, runtime helper")
+    }
+}
+
 struct Rng(u64);
 impl Rng { fn next(&mut self) -> u64 { self.0 ^= self.0 << 13; self.0 ^= self.0 >> 7; self.0 ^= self.0 << 17; self.0 } fn below(&mut self, n: u64) -> u64 { self.next() % n } }
 const PIECES: &[&str] = &["a", "b", " ", "\n", "\r\n", "\r", "é", "日", "😀", "x = 1", "\t", "\u{0}", "ß", "\n\n", "𝒳"];
@@ -143,6 +334,27 @@ fn search(oracle: &str, seed: u64, budget: u64, skip: &[String]) -> Value {
             "lsp::offset_to_position" => json!({"s": s, "offset": roff(&mut r, &s)}),
             "lsp::round_trip" | "lsp::position_to_offset" | "lsp::monotone" => json!({"s": s, "k": r.below(s.chars().count() as u64 + 1)}),
             "lsp::span_to_range" | "syntax::get_line_info" => { let a = roff(&mut r, &s); let b = roff(&mut r, &s); json!({"s": s, "start": a, "end": b}) }
+            "incan::static_type" => {
+                // exhaustive: 7 operators x 2 x 2 operand kinds x 2 annotations x 7 right-operand forms x 3 binding positions = 1176 programs
+                let forms = ["var", "const", "lit", "zero", "neg", "paren", "negneg"];
+                let pos = ["let", "return", "arg"];
+                let k = n % 1176;
+                json!({"op": k % 7, "lfloat": (k / 7) % 2 == 0, "rfloat": (k / 14) % 2 == 0, "ann_float": (k / 28) % 2 == 0, "form": forms[((k / 56) % 7) as usize], "position": pos[((k / 392) % 3) as usize]})
+            }
+            "incan::compound_assign" => {
+                // exhaustive: 6 compound operators x 2 target kinds x 2 value kinds = 24 programs
+                let k = n % 24;
+                json!({"op": k % 6, "target_float": (k / 6) % 2 == 0, "value_float": (k / 12) % 2 == 0})
+            }
+            "incan::exponent_kind" | "incan::binop_plan" => {
+                let lits = [0i64, 1, 2, 3, 4294967295, 4294967296, i64::MAX];
+                let base = match r.below(3) { 0 => json!({"var": "x"}), _ => { let n = lits[r.below(7) as usize]; json!({"int": n}) } };
+                let nw = r.below(4);
+                let wrap: Vec<&str> = (0..nw).map(|_| if r.below(2) == 0 { "neg" } else { "paren" }).collect();
+                let e = json!({"base": base, "wrap": wrap});
+                if oracle == "incan::exponent_kind" { json!({"base": e["base"], "wrap": e["wrap"], "float": r.below(4) == 0}) }
+                else { json!({"op": r.below(13), "lfloat": r.below(2) == 0, "rfloat": r.below(2) == 0, "untyped": r.below(4) == 0, "right": e}) }
+            }
             _ => return json!({"found": false, "error": "no generator"}),
         };
         let v = call(oracle, &a);
